@@ -90,7 +90,9 @@ struct Args {
   std::string status = "";   // mmap'ed status file
   std::string streams = "";  // comma list restricting streams (optional)
   std::string hashes = "";   // file receiving distinct-case hashes
+  std::string outcomes = ""; // file receiving (gidx, outcome digest) records
   bool verbose = false;
+  unsigned case_timeout = 0;  // seconds; 0 = default watchdog (re-armed every 64 cases)
   std::vector<std::string> extra;  // harness-specific arguments
 };
 inline Args& args() {
@@ -257,7 +259,17 @@ inline std::map<std::string, uint64_t>& digests() {
   static std::map<std::string, uint64_t> m;
   return m;
 }
-inline void outcome(uint64_t h) { digests()[status().stream] += mix64(h); }
+inline FILE*& outcome_file() {
+  static FILE* f = nullptr;
+  return f;
+}
+inline void outcome(uint64_t h) {
+  digests()[status().stream] += mix64(h);
+  if (FILE* f = outcome_file()) {  // (global case index, digest) pairs: lets the driver name the case that differs between runs
+    uint64_t rec[2] = {(uint64_t)status().gidx, h};
+    fwrite(rec, 8, 2, f);
+  }
+}
 
 // ---------------------------------------------------------------- violations
 struct VioState {
@@ -354,6 +366,7 @@ inline void parse_args(int argc, char** argv) {
     else if (k == "--status") a.status = val();
     else if (k == "--streams") a.streams = val();
     else if (k == "--hashes") a.hashes = val();
+    else if (k == "--outcomes") a.outcomes = val();
     else if (k == "--verbose") a.verbose = true;
     else a.extra.push_back(k);
   }
@@ -462,7 +475,7 @@ inline void begin_case(const Stream& s, uint64_t sid, uint64_t gidx, uint64_t lo
   st.wlen = 0;
   st.note[0] = 0;
   st.in_case = 1;
-  if ((st.cases & 0x3f) == 0) alarm(args().thorough ? 900 : 180);
+  if ((st.cases & 0x3f) == 0 || args().case_timeout) alarm(args().case_timeout ? args().case_timeout : (args().thorough ? 900 : 180));
   st.cases = st.cases + 1;
 }
 // one input / execution judged by an oracle
@@ -491,6 +504,7 @@ inline int run(int argc, char** argv, const std::vector<Stream>& streams) {
   }
   status().magic = 0x76657269665f7374ULL;
   if (!a.out.empty()) out_file() = fopen(a.out.c_str(), "a");
+  if (!a.outcomes.empty()) outcome_file() = fopen(a.outcomes.c_str(), "ab");
   install_signal_handlers(!VF_SANITIZER);
   if (a.only >= 0) a.verbose = true;
 
@@ -526,6 +540,7 @@ inline int run(int argc, char** argv, const std::vector<Stream>& streams) {
   }
   alarm(0);
   write_summary(streams, per_stream, true);
+  if (outcome_file()) fclose(outcome_file());
   if (out_file()) fclose(out_file());
   return 0;
 }
